@@ -24,7 +24,7 @@ ASSUMPTIONS = [
 ]
 PROBES = ["clock_stepping", "clock_jumping", "clock_constant", "id_plus_1", "id_minus_1", "id_arbitrary", "id_previous",
           "other_community", "other_version", "disco_foreign_msgid", "perturb_inside_walk", "multiset_stepping",
-          "jump_fired", "v1", "v3"]
+          "jump_fired", "v1", "v3", "foreign_response_with_error_status"]
 shrink_lists: List[tuple] = [("mib",)]
 OPS = ["get", "multiget", "getnext", "multigetnext", "set", "multiset", "bulkget", "walk", "multiwalk", "bulkwalk",
        "table", "bulktable"]
@@ -68,7 +68,10 @@ def plan_for(tier: str, seed: int, i: int) -> dict:
                   and not (b == "disco_msgid" and version != "v3")]
     beh = rng.choice(behaviours)
     clock = gen.gen_clock(rng, modes=("tied", "constant", "stepping", "stepping", "jumping"))
-    return {"prop": ID, "proto": proto, "mib": sorted(mib.items()), "op": op, "behaviour": beh,
+    # the foreign response may in addition carry error-status noSuchName (SNMPv1's end-of-MIB signal, which walks treat
+    # as a normal end): whichever exception wins, a response that is not the answer must never END an operation normally
+    with_error = mrng.random() < 0.2
+    return {"prop": ID, "proto": proto, "mib": sorted(mib.items()), "op": op, "behaviour": beh, "with_error": with_error,
             "target": rng.randrange(0, 4), "arb": rng.choice([0, 1, -1, 2**31 - 1, -(2**31), 12345]), "clock": clock}
 
 
@@ -100,6 +103,9 @@ def _run(plan: dict, clock: dict, behaviour: str) -> dict:
             st["after_bad_disco"] += 1
         if st["n"] != plan["target"] or behaviour in ("echo", "disco_msgid") or resp["es"] != 0:
             return resp
+        if plan.get("with_error"):
+            resp = dict(resp, es=2, ei=1 if req["pdu"]["vbs"] else 0, vbs=list(req["pdu"]["vbs"]))
+            st["with_error"] = True
         if behaviour == "community":
             req["out_community"] = req["community"] + b"x"
             st["applied"] = "community"
@@ -113,6 +119,8 @@ def _run(plan: dict, clock: dict, behaviour: str) -> dict:
         new = max(-(2**31), min(2**31 - 1, new))
         if new != rid:
             st["applied"] = behaviour
+        elif st.get("with_error"):
+            return dict(req["model_resp"])       # nothing foreign about it after all: stay conformant
         return dict(resp, rid=new)
 
     def hook_v3(req: dict, f: dict) -> dict:
@@ -134,7 +142,8 @@ def _run(plan: dict, clock: dict, behaviour: str) -> dict:
     except Exception as e:  # noqa: BLE001
         exc = e
     w.settle()
-    out = {"res": res, "exc": exc, "applied": st["applied"], "digest": w.net.digest(),
+    out = {"res": res, "exc": exc, "applied": st["applied"], "with_error": bool(st.get("with_error")) and st["applied"] is not None,
+           "digest": w.net.digest(),
            "cred_after_bad_disco": sum(1 for r in agent.requests if not r.get("discovery") and r["verdict"] != "?")
            if st["bad_disco"] else 0,
            "non_disco_requests": sum(1 for r in agent.requests if not r.get("discovery")),
@@ -172,6 +181,10 @@ def execute(plan: dict) -> dict:
                  "conformant echo: %s (%s) but %s under the tied clock" % (excname or "ok", exc, bname or "ok"))
         elif exc is None and a["res"] != b["res"]:
             fail("twin-differs", "result differs from the tied-clock twin")
+    elif a["with_error"]:
+        if exc is None:
+            fail("foreign-response-used", "a response with foreign %s and error-status noSuchName ended the operation "
+                 "normally with %r" % (a["applied"], str(a["res"])[:200]))
     elif a["applied"] in ("plus1", "minus1", "arbitrary", "previous"):
         if excname != "InvalidResponseId":
             fail("foreign-id-accepted" if exc is None else "raised:" + excname,
@@ -197,6 +210,7 @@ def execute(plan: dict) -> dict:
         if a["applied"] == k:
             probes[name] = 1
     probes["perturb_inside_walk"] = int(a["applied"] is not None and plan["target"] > 0)
+    probes["foreign_response_with_error_status"] = int(a["with_error"])
     probes["multiset_stepping"] = int(plan["op"]["op"] in ("set", "multiset") and mode == "stepping")
     probes["jump_fired"] = int(mode == "jumping" and a["jump_fired"])
     probes["v1"] = int(plan["proto"]["version"] == "v1")
